@@ -94,6 +94,11 @@ def make_jobs(rng):
     jobs.append(('PadIfNeededS_update_params', 'PadIfNeeded', kw, [H, W, D], lambda o: o.update_params({}, image=img), None))
     jobs.append(('FlipS_get_params', 'Flip', {}, [], lambda o: o.get_params(), None))
     jobs.append(('RandomCropS_get_params', 'RandomCrop', dict(height=3, width=3, depth=2), [], lambda o: o.get_params(), None))
+    lo = rng.randint(1, 6)
+    jobs.append(('RandomSizedCropS_get_params', 'RandomSizedCrop',
+                 dict(min_max_height=(lo, lo + rng.randint(0, 5)), height=5, width=4, depth=3,
+                      w2h_ratio=rng.choice([1.0, 0.5, 1.25, 0.75]), d2h_ratio=rng.choice([1.0, 0.25, 1.5])), [],
+                 lambda o: o.get_params(), None))
     # dyadic fractions: int(fraction * extent) is then the same in float64 and in exact arithmetic (no truncation at a
     # value that is an integer only up to round-off)
     kw = {k: rng.choice([0.125, 0.25, 0.375, 0.4375]) for k in ('crop_left', 'crop_right', 'crop_top', 'crop_bottom', 'crop_close', 'crop_far')}
